@@ -47,7 +47,7 @@ def classify(call):
 def run(ctx):
     repo = ctx.repo
     res = Result(PROP)
-    res.rules = ["Q-ORDER", "Q-FLAG", "Q-COPY", "Q-LABEL", "Q-SUB", "Q-UNION", "Q-DUAL"]
+    res.rules = ["Q-ORDER", "Q-FLAG", "Q-COPY", "Q-LABEL", "Q-SUB", "Q-UNION", "Q-DUAL", "Q-COMPL"]
     res.explanation = (
         "Narrow claim: the cleanup methods of the three classes are conjunctions of steps whose guarantees hold only in one "
         "order; steps are identified at their call sites, their mutual order is decided by reachability on the CFG, their "
@@ -69,6 +69,7 @@ def run(ctx):
     res.floor("cleanup methods", n, 3)
     check_relabel(repo, res)
     check_union_dual(repo, res)
+    check_complement(repo, res)
     gv = repo.modules.get("xgi.core.globalviews")
     sub = gv.functions.get("subhypergraph") if gv else None
     if sub is None:
@@ -377,6 +378,62 @@ def check_union_dual(repo, res):
     res.inst("Q-DUAL", "dual keeps the network attributes", ok)
     if not ok:
         res.add(mk_finding(PROP, "Q-DUAL", d, d.node, "Hypergraph.dual does not carry the network attributes over", role="dual-net"))
+
+
+def check_complement(repo, res):
+    """Q-COMPL: complement() subtracts the existing edges from the candidate node sets by comparing ENCODED keys; the
+    two encodings (of an existing edge, of a candidate subset) must be the same canonical form - same separator, sorted at
+    the same stage (numerically before str(), not lexicographically after it)."""
+    mi = repo.modules.get("xgi.generators.classic")
+    fn = mi.functions.get("complement") if mi else None
+    if fn is None:
+        raise AnalysisError("xgi.generators.classic.complement not found (anchor vanished)")
+    # the two key sets: names that receive .add(key) inside loops and are later combined by difference
+    adds = {}
+    for lp in own_statements(fn.node):
+        if not isinstance(lp, ast.For):
+            continue
+        for c in ast.walk(lp):
+            if isinstance(c, ast.Call) and isinstance(c.func, ast.Attribute) and c.func.attr == "add" and isinstance(c.func.value, ast.Name) and c.args:
+                adds.setdefault(c.func.value.id, []).append((lp, c))
+    keysets = {k: v for k, v in adds.items() if any(isinstance(n, ast.Call) and isinstance(n.func, ast.Attribute) and n.func.attr == "difference" and (getattr(n.func.value, "id", None) == k or any(isinstance(a, ast.Name) and a.id == k for a in n.args)) for n in ast.walk(fn.node)) or any(isinstance(n, ast.BinOp) and isinstance(n.op, ast.Sub) and k in (getattr(n.left, "id", None), getattr(n.right, "id", None)) for n in ast.walk(fn.node))}
+    if len(keysets) != 2:
+        res.info.append({"Q-COMPL": f"complement does not compare two encoded key sets ({sorted(keysets)}); rule not applicable to this form"})
+        res.inst("Q-COMPL", "complement: encoded key sets compared by set difference", True)
+        return
+
+    def signature(lp, call):
+        """(where the sort happens relative to str(), separator) for the key handed to .add()."""
+        local = {}
+        stmts = list(own_statements(lp))
+        # same-module helpers called inside the loop (encoding extracted into a function)
+        for c in ast.walk(lp):
+            if isinstance(c, ast.Call) and isinstance(c.func, ast.Name) and c.func.id in mi.functions and mi.functions[c.func.id] is not fn:
+                stmts += list(own_statements(mi.functions[c.func.id].node))
+        for st in stmts:
+            if isinstance(st, ast.Assign) and len(st.targets) == 1 and isinstance(st.targets[0], ast.Name):
+                local.setdefault(st.targets[0].id, []).append(st.value)
+        sorts = []
+        for st in stmts:
+            for c in ast.walk(st):
+                if isinstance(c, ast.Call) and (getattr(c.func, "id", None) == "sorted" or (isinstance(c.func, ast.Attribute) and c.func.attr == "sort")):
+                    operand = c.args[0] if getattr(c.func, "id", None) == "sorted" and c.args else (c.func.value if isinstance(c.func, ast.Attribute) else None)
+                    exprs = [operand] + (local.get(operand.id, []) if isinstance(operand, ast.Name) else [])
+                    is_str = any(isinstance(x, ast.Call) and getattr(x.func, "id", None) == "str" for e in exprs if e is not None for x in ast.walk(e))
+                    sorts.append("after-str" if is_str else "before-str")
+        seps = set()
+        for st in stmts:
+            for c in ast.walk(st):
+                if isinstance(c, ast.Call) and isinstance(c.func, ast.Attribute) and c.func.attr == "join" and isinstance(c.func.value, ast.Constant):
+                    seps.add(c.func.value.value)
+        return (tuple(sorted(set(sorts))) or ("unsorted",), tuple(sorted(seps)))
+
+    sigs = {k: {signature(lp, c) for lp, c in v} for k, v in keysets.items()}
+    (ka, sa), (kb, sb) = sorted(sigs.items())
+    ok = sa == sb and len(sa) == 1 and "unsorted" not in next(iter(sa))[0]
+    res.inst("Q-COMPL", f"complement: keys of `{ka}` and `{kb}` are encoded the same way ({sorted(sa)} / {sorted(sb)})", ok)
+    if not ok:
+        res.add(mk_finding(PROP, "Q-COMPL", fn, keysets[ka][0][1], f"complement: the keys of `{ka}` are built as {sorted(sa)} and those of `{kb}` as {sorted(sb)} (sort stage relative to str(), separator); an existing edge is only subtracted from the candidates if both encodings coincide - sorting the digits as strings puts 10 before 2, so edges that join a node at position >= 10 with one below 10 stay in the complement", role="encoding"))
 
 
 def check_relabel(repo, res):
